@@ -198,6 +198,33 @@ except Exception as e:  # noqa
     miss.append(f'extract_critpath: {e}')
     cps = None
 
+try:
+    import extract_csv
+    try:
+        cvs = extract_csv.extract(open(os.path.join(src, 'io', 'csv_io.py')).read(),
+                                  open(os.path.join(src, 'io', 'raw.py')).read())
+        ok.append('csv_src')
+    except Exception as e:  # noqa
+        cvs = extract_csv.PINNED
+        miss.append(f'csv_src: {e}')
+    vals['csv_src'] = cvs
+except Exception as e:  # noqa
+    miss.append(f'extract_csv: {e}')
+    cvs = None
+
+try:
+    import extract_print
+    try:
+        prs = extract_print.extract(open(os.path.join(src, 'task.py')).read(), open(os.path.join(src, 'utils.py')).read())
+        ok.append('print_src')
+    except Exception as e:  # noqa
+        prs = extract_print.PINNED
+        miss.append(f'print_src: {e}')
+    vals['print_src'] = prs
+except Exception as e:  # noqa
+    miss.append(f'extract_print: {e}')
+    prs = None
+
 
 def write_if_changed(path, content):
     os.makedirs(os.path.dirname(path), exist_ok=True)
@@ -242,6 +269,10 @@ if fs is not None:
     write_if_changed(os.path.join(lean, 'PjVerif', 'Extracted', 'FacadeSrc.lean'), extract_facade.to_lean(fs))
 if cps is not None:
     write_if_changed(os.path.join(lean, 'PjVerif', 'Extracted', 'CritPathSrc.lean'), extract_critpath.to_lean(cps))
+if cvs is not None:
+    write_if_changed(os.path.join(lean, 'PjVerif', 'Extracted', 'CsvSrc.lean'), extract_csv.to_lean(cvs))
+if prs is not None:
+    write_if_changed(os.path.join(lean, 'PjVerif', 'Extracted', 'PrintSrc.lean'), extract_print.to_lean(prs))
 os.makedirs(os.path.join(verif, 'out'), exist_ok=True)
 write_if_changed(os.path.join(verif, 'out', 'extracted.json'), json.dumps(vals, indent=1))
 print(json.dumps({'ok': ok, 'miss': miss}))
